@@ -33,5 +33,9 @@ Decs == << DecV(<<5, 2>>, V("Quat", <<<<1, 2>>, <<1, 2>>, <<-1, 2>>, <<1, 2>>>>)
            DecV(R(2), V("Basis", << <<<<3, 5>>, <<4, 5>>>>, <<<<-4, 5>>, <<3, 5>>>> >>), <<R(7), R(-8)>>) >>
 Prog(d) == [sc |-> <<"f64", "f32">>, regs |-> <<d>> \o [i \in 1..Len(keys) |-> Tv(keys[i])] \o [i \in 1..(19 - Len(keys)) |-> Nil],
             calls |-> <<Call("serde_dec_keys", "m", [i \in 1..(Len(keys) + 1) |-> i], 10)>>]
+\* inputs that never reach the field loop (not an object) or fail inside it (a field of the wrong type): always rejected
+ProgM(d, kind) == [sc |-> <<"f64", "f32">>, regs |-> <<d, Tv(kind)>> \o [i \in 1..18 |-> Nil],
+                   calls |-> <<Call("serde_dec_malformed", "m", <<1, 2>>, 10)>>]
+EmitMalformed == (phase = "feed" /\ keys = <<>>) => \A i \in 1..3 : \A kind \in MalformedKinds : PrintT(<<"REPLAY", ToJson(ProgM(Decs[i], kind))>>)
 Emit == phase = "done" => \A i \in 1..3 : PrintT(<<"REPLAY", ToJson(Prog(Decs[i]))>>)
 =============================================================================
